@@ -28,7 +28,7 @@ SECRETS = ["", "a", "b", "A", "a ", "aa", "é", "é", "a\x00", {"$": "bigstr", 
 # presented to challenge() only: text with a lone surrogate has no UTF-8 form, so it can be nobody's secret
 UNENCODABLE = ["hunter2\udcff", "\udcff", "a\ud800"]
 FORMATS = ["json", "yaml", "xml", "bson", "pickle"]
-ROUTES = ["attr", "ctor", "default", "default-callable", "digest-default", "digest-exact-salt", "digest-long-salt", "load_tree", "document", "document-yaml", "document-xml", "list-assign", "list-append",
+ROUTES = ["attr", "late-declared-attr", "late-declared-load", "item-config-tree", "item-config-type-tree", "ctor", "default", "default-callable", "digest-default", "digest-exact-salt", "digest-long-salt", "load_tree", "document", "document-yaml", "document-xml", "list-assign", "list-append",
           "dict-default-item", "dict-factory-default-update", "list-default-append", "list-factory-default-iadd", "include-overrides-stored",
           "list-assign-dup", "tuple-assign-dup", "list-default-dup", "dict-assign-dup", "dict-item", "dict-setdefault", "dict-update", "dict-ior", "dict-assign", "list-insert", "list-setitem", "list-setslice", "list-extend", "list-iadd",
           "list-from-str-proxy", "list-extend-str-proxy", "list-iadd-any-proxy", "sub-document-xml"]
@@ -87,6 +87,30 @@ def _place(schema, route, p, alg):
     if route == "attr":
         cfg = schema(); cfg.pw = p
         return cfg, lambda c: c.pw
+    if route.startswith("late-declared"):
+        # a dynamic configuration already holds an ad-hoc value under the key; the schema then declares the key as a challenge
+        # field: from then on every write to the key is a secret
+        s2 = cc.Schema(dynamic=True)
+        s2.other = cc.StringField(default="o")
+        cfg = s2()
+        cfg.pw = "an-older-adhoc-value"
+        s2.pw = cc.ChallengeField(alg)
+        if route.endswith("attr"):
+            cfg.pw = p
+        else:
+            cfg.load_tree({"pw": p})
+        return cfg, lambda c: c.pw
+    if route.startswith("item-config"):
+        # the challenge field sits in the item schema of a list of configurations (plain sub-schema / config type)
+        item = cc.Schema()
+        item.pw = cc.ChallengeField(alg)
+        item.n = cc.IntField(default=1)
+        s2 = cc.Schema()
+        s2.items = cc.ListField(cc.make_type(item, "Item09") if "type" in route else item)
+        s2.pw = cc.ChallengeField(alg)
+        cfg = s2()
+        cfg.load_tree({"items": [{"n": 2}, {"pw": p}]})
+        return cfg, lambda c: c.items[1].pw
     if route == "ctor":
         cfg = schema(pw=p)
         return cfg, lambda c: c.pw
@@ -282,7 +306,7 @@ def _pairs(job, ctx):
     secrets = [V.dec(s) for s in SECRETS]
     only = job.get("only")
     for pi, p in enumerate(secrets):
-        if (route.startswith("document") or route.startswith("sub-document") or route.endswith("proxy") or route in ("default", "default-callable", "load_tree", "include-overrides-stored")) and not isinstance(p, str):  # trees and defaults are text
+        if (route.startswith("document") or route.startswith("sub-document") or route.endswith("proxy") or route in ("default", "default-callable", "load_tree", "include-overrides-stored", "late-declared-load", "item-config-tree", "item-config-type-tree")) and not isinstance(p, str):  # trees and defaults are text
             ctx.skipped += 1
             continue
         if route.endswith("xml") and isinstance(p, str) and ("\x00" in p or not p.strip(" ") == p and False):
@@ -356,7 +380,7 @@ def _pairs(job, ctx):
                 continue
             ctx.transitions += 1
             scan_output(bad, out, p, "dumps(%s)" % fmt)
-            fresh = schema()
+            fresh = cfg._schema()       # (the schema the route built its configuration from)
             try:
                 fresh.loads(out, fmt)
                 dv3 = get(fresh)
